@@ -198,7 +198,8 @@ CLAIMS = {
             "parse, --inspect summary to report scanned = all files and skipped = faulty files, and the exit status to follow the "
             "tally. One tree is a project whose languageGlobs tell files of one extension apart (a file's language must not "
             "depend on its neighbours). proofs/WorkerProofs.tla: TLAPS proves for ANY number of files and threads that "
-            "the model hands out every file at most once and, when the run is over, exactly once.",
+            "the model hands out every file at most once and, when the run is over, exactly once; proofs/WorkerUnion.tla: "
+            "that what has been printed when the run is over is exactly the set of items of the processable files.",
             "ignore::WalkParallel is trusted to hand out each file once; schedules are sampled, not enumerated; no "
             "permission faults (root sandbox); a panic inside a walker thread is C11's concern",
             "DESIGN.md section 3 C17"),
